@@ -14,6 +14,7 @@ import (
 	"sync"
 	"sync/atomic"
 	"testing"
+	"time"
 
 	"github.com/ChainSafe/gossamer/dot/types"
 )
@@ -157,6 +158,14 @@ func TestVerifTxQueueConc(t *testing.T) {
 		q := NewPriorityQueue()
 		ng := 2 + rng.Intn(3)
 		nops := 2 + rng.Intn(3)
+		// every third history is "primed": the harness holds the queue mutex while the goroutines
+		// start, long enough (> 1 ms) for sync.Mutex to enter starvation mode, so the lock is then
+		// handed FIFO from one caller's critical section to the next caller's.  A check-then-act
+		// split over two critical sections becomes visible almost deterministically.
+		primed := h%3 == 0
+		if primed {
+			nops = 2
+		}
 		var ctr atomic.Int64
 		evs := make([][]vtqEv, ng)
 		var wg sync.WaitGroup
@@ -176,6 +185,10 @@ func TestVerifTxQueueConc(t *testing.T) {
 				if o.Op == "Push" {
 					o.Prio = 1 + rng.Intn(2)
 				}
+				if primed && i == 0 {
+					// contention primer: every goroutine starts by pushing the SAME transaction
+					o = vtqOp{Op: "Push", Tx: 1, Prio: 1 + rng.Intn(2)}
+				}
 				ops[i] = job{id, o}
 			}
 			wg.Add(1)
@@ -191,7 +204,14 @@ func TestVerifTxQueueConc(t *testing.T) {
 				}
 			}(g)
 		}
+		if primed {
+			q.Lock()
+		}
 		close(start)
+		if primed {
+			time.Sleep(3 * time.Millisecond)
+			q.Unlock()
+		}
 		wg.Wait()
 		var all []vtqEv
 		for _, e := range evs {
